@@ -2735,9 +2735,13 @@ class Mesh:
                     # Found a region with a lower boundary - start stepping through
                     # y-connections from here
                     break
-                # note, if no region with connections['lower']=None is found, then some
-                # arbitrary region will be 'first_region' after this loop. This is OK,
-                # as this region must be part of a periodic group, which we will handle.
+            else:
+                # No region with connections['lower']=None was found, so the remaining
+                # regions form periodic groups. Start from the first one in the list, so
+                # that poloidal_distance and zShift in the core are measured from the
+                # first core region in y-index order (the lower X-point in the standard
+                # ordering), as documented, and not from the last one.
+                i, first_region = 0, region_list[0]
 
             # Find all the regions connected in the y-direction to 'first_region' and
             # add them to 'group'. Remove them from 'region_list' since each region can
